@@ -10,6 +10,7 @@ was still right.
 """
 import os, time
 import vlib
+import contlib
 from contlib import split_ab
 
 FAMILY = 'cont_linked_list'
@@ -28,6 +29,8 @@ def _first_diff(m, i):
 
 def run(chk, ctx, cases):
     cases = [c for c in cases if c.split(' ')[1:2] == [CLASS]]
+    ntotal = len(cases)
+    cases = [c for c in cases if contlib.tie_affordable(c)]
     if not cases:
         return []
     t0 = time.time()
@@ -44,13 +47,20 @@ def run(chk, ctx, cases):
         vlib.save_good_model(FAMILY, exe)
     work = os.path.join(vlib.BUILD, 'work', chk.id.lower())
     os.makedirs(work, exist_ok=True)
-    path = os.path.join(work, 'cases-%s.txt' % FAMILY)
+    # a file of its own per process: several checks of one property may run at the same time
+    path = os.path.join(work, 'cases-%s-%d.txt' % (FAMILY, os.getpid()))
     with open(path, 'w') as f:
         for c in cases:
             f.write(c + '\n')
-    mouts, minfo = vlib.run_model(exe, path, len(cases))
-    iouts, det = vlib.run_cases(ctx['impl_exe'], path, len(cases), env={'LV_CONT_B': '1'},
-                                timeout_per_run=getattr(chk, 'case_timeout', 600))
+    try:
+        mouts = contlib.run_model_sliced(exe, cases, work, FAMILY)
+        iouts, det = vlib.run_cases(ctx['impl_exe'], path, len(cases), env={'LV_CONT_B': '1'},
+                                    timeout_per_run=getattr(chk, 'case_timeout', 600))
+    finally:
+        try:
+            os.remove(path)
+        except OSError:
+            pass
     out = []
     agree = 0
     for c, m, i in zip(cases, mouts, iouts):
@@ -76,7 +86,8 @@ def run(chk, ctx, cases):
                 out.append(('B', c, 'structure dump of %s (len / head->next chain) differs from the pointer-level model; %s'
                             % (CLASS, _first_diff(split_ab(m)[1], split_ab(i)[1]))))
     ctx['cov'].setdefault('class_model_runs', {})[CLASS] = dict(
-        histories=len(cases), agree=agree, disagree=len(out), wall_s=round(time.time() - t0, 2),
+        histories=len(cases), too_large_for_the_pointer_level_model=ntotal - len(cases), agree=agree, disagree=len(out),
+        wall_s=round(time.time() - t0, 2),
         model='coq/Cont/LListModel.v via driver/%s_main.ml' % FAMILY)
     out.sort(key=lambda d: (d[0], len(d[1])))
     return out[:200]
